@@ -113,6 +113,8 @@ type TD struct {
 	ansKey          int64
 	answered        map[int]bool
 	overlaps        int
+	after3betDone   bool
+	curPlan         *HandPlan
 	gone            bool
 	companion       string
 	stopCompanionFn func()
@@ -273,6 +275,16 @@ func NewTD(rec *Recorder, sc *Scenario) *TD {
 			return
 		}
 		d.rec.Emit("cb:updated", mkArgs(), "", te, t, nil, false)
+		if t != nil && t.State != nil && t.State.Status == pt.TableStateStatus_TableGameOpened {
+			// injections "cb:opened": calls the application makes from its own listener of the opened event, i.e. between the
+			// publication of the opened table and the creation of the hand (only calls that take no engine lock)
+			d.hmu.Lock()
+			plan := d.curPlan
+			d.hmu.Unlock()
+			if plan != nil {
+				d.runInj(plan, "cb:opened")
+			}
+		}
 		if sc.Actors {
 			d.deliverToActors(t)
 		}
@@ -1227,8 +1239,19 @@ func (d *TD) chooseAction(plan *HandPlan, gs *pokerface.GameState, turn int) (st
 		w = map[string]int{"fold": 3, "check": 5, "call": 20, "allin": 35, "bet": 20, "raise": 25}
 	case "foldy":
 		w = map[string]int{"fold": 50, "check": 20, "call": 10, "allin": 3, "bet": 5, "raise": 5}
-	case "raisy": // minimum raises as long as the hand offers them
+	case "raisy": // open, 3-bet, everybody else calls, the opener 4-bets; minimum raises from then on
 		w = map[string]int{"fold": 0, "check": 4, "call": 4, "allin": 1, "bet": 90, "raise": 90}
+		if gs.Status.Round == "preflop" {
+			raisers := 0
+			for _, q := range gs.Players {
+				if q.DidAction == "raise" {
+					raisers++
+				}
+			}
+			if raisers == 2 && p.DidAction != "raise" && has(al, "call") {
+				return "call", 0
+			}
+		}
 	}
 	tot := 0
 	for _, a := range al {
@@ -1287,6 +1310,9 @@ func (d *TD) playHand(plan *HandPlan) string {
 		d.spy.FailKind[k] = v
 	}
 	d.spy.mu.Unlock()
+	d.hmu.Lock()
+	d.curPlan = plan
+	d.hmu.Unlock()
 	d.armGates(plan)
 	gc0 := d.table().State.GameCount
 	d.runInj(plan, "prefinish")
@@ -1461,6 +1487,20 @@ func (d *TD) playHand(plan *HandPlan) string {
 			}
 		case "RoundStarted":
 			d.runInj(plan, fmt.Sprintf("turn%d", turn))
+			if plan.Policy == "raisy" && gs.Status.Round == "preflop" {
+				// injections "after3bet": the first time the opener is asked again with exactly one re-raise behind his open
+				raisers := 0
+				for _, q := range gs.Players {
+					if q.DidAction == "raise" {
+						raisers++
+					}
+				}
+				me := gs.Players[gs.Status.CurrentPlayer]
+				if raisers == 2 && me.DidAction == "raise" && !d.after3betDone {
+					d.after3betDone = true
+					d.runInj(plan, "after3bet")
+				}
+			}
 			cur := d.table().State.GameState
 			if cur == nil || cur.UpdatedAt != gs.UpdatedAt {
 				continue
